@@ -59,6 +59,8 @@ type File struct {
 	comments    []string
 	headers     []string
 	cgoPreamble []string
+	// noAliases renders each package reference as its quoted path (see withoutAliases).
+	noAliases bool
 	// NoFormat can be set to true to disable formatting of the generated source. This may be useful
 	// when performance is critical, and readable code is not required.
 	NoFormat bool
@@ -220,6 +222,18 @@ func (f *File) register(path string) string {
 	f.imports[path] = importdef{name: unique, alias: alias}
 
 	return unique
+}
+
+// withoutAliases returns a copy of the file that renders package references as their quoted paths
+// instead of aliases. Nothing rendered with the copy is registered in the file's imports.
+func (f *File) withoutAliases() *File {
+	c := *f
+	c.noAliases = true
+	c.imports = make(map[string]importdef, len(f.imports))
+	for path, def := range f.imports {
+		c.imports[path] = def
+	}
+	return &c
 }
 
 // prefixed returns the name as it is written in the import block: aliases get the package prefix,
